@@ -37,9 +37,15 @@ PROPS = {
     },
     "C19": {
         "kani": ["c19"],
+        "search": True,
+        "always_search": True,
+        "bounded_search": [
+            {"obligation": "proto/whole_proof#roundtrip", "bound": "real lookup / history (Complete, MostRecent(1), MostRecent(2)) / append-only proofs of a 3-epoch directory, both configurations: proof -> proto message -> wire bytes -> message -> proof is identical and verifies to the same result"},
+            {"obligation": "proto/whole_proof#no_panic", "bound": "every truncation (first 400 lengths) and 300 seeded single-bit flips of each of those encodings: decoding returns Err or Ok, never panics"}],
         "scope": "partial (label / digest / direction codecs and component round trips, Kani on the compiled crate): minimal-label encode/decode round trip for all 2^256 values; "
                  "NodeLabel, AzksElement, SiblingProof -> proto -> back is the identity; over-long label value, label_len > 256, missing fields and wrong-size digests are rejected "
-                 "without panic; the direction field decodes only to 0/1 after masking. Whole-proof round trips (Vec-of-Vec) and wire-level parsing (protobuf crate) are not decided.",
+                 "without panic; the direction field decodes only to 0/1 after masking. Whole proofs (composite converters: Kani did not finish within 15 min even with concrete labels) are "
+                 "covered by a BOUNDED enumeration on the real code, see bounded.",
         "trusted": ["the protobuf crate (wire parsing, never panics on arbitrary bytes)", "alloc::fmt::format stubbed in the harnesses (error message text is irrelevant to the contracts)",
                     "overlay akd_core/Cargo.toml: default features += protobuf, whatsapp_v1 (cargo kani applies --features workspace-wide)"],
         "assumed": [],
